@@ -282,9 +282,18 @@ func runC06(t *testing.T, sc *vnet.Scenario) (res c06Result) {
 			// fail within a bounded time of the first failure.
 			res.labels = append(res.labels, "closed_by_keepalive")
 			pp := maxDur(ms(sc.Client.PingMs+sc.Client.PongMs), ms(sc.Server.PingMs+sc.Server.PongMs))
-			limit := pp + bound()
-			left := limit - time.Duration(env.Trace.Now()-firstFail)*time.Microsecond
-			if left > 0 {
+			// The timeouts are read when the verdict is given: a dynamic
+			// resend timeout is boosted by every resend to the dead peer, and
+			// the send loop only looks at the pong timer between resends. The
+			// limit is re-evaluated a bounded number of times so that a
+			// connection that never closes is still reported.
+			var limit time.Duration
+			for i := 0; i < 4; i++ {
+				limit = pp + bound()
+				left := limit - time.Duration(env.Trace.Now()-firstFail)*time.Microsecond
+				if left <= 0 {
+					break
+				}
 				time.Sleep(left)
 			}
 			var open []string
